@@ -255,7 +255,12 @@ class Emit:
             return [("loop", src_l, body)]
         if k == "Match":
             arms = {}
-            for v, arm, pat in hir.arms_by_variant(x):
+            try:
+                by_variant = hir.arms_by_variant(x)
+            except Unrecognised:
+                # patterns that are not plain variants (tuples, literals, ranges): the arms in source order, keyed by position
+                return [("match", label(x["scrut"], env), {"arm%d" % i: self.block(a["body"], dict(env), depth, owner) for i, a in enumerate(x["arms"])})]
+            for v, arm, pat in by_variant:
                 env2 = dict(env)
                 if pat["k"] == "Struct":
                     for fd in pat["fields"]:
